@@ -21,6 +21,26 @@ META = dict(
 IF = "darling_core::options::input_field::InputField::"
 
 
+def default_synthesis_rules(ctx, P):
+    """Which default a field gets when it declares none: the container's (Inherit) when the container
+    has one, `Default::default()` (Trait) only for a field that is really skipped (`skip` present
+    *and* true), nothing otherwise – so a field without a default stays required, and the emitted
+    code asks for `Default` only where the documentation says so.  Shared with C02 (a required
+    item that is absent is a mistake) and C20 (accepted options compile).  The constructions may
+    stand in the function or in a closure handed to an Option combinator."""
+    f = ctx.fn(IF + "with_inherited")
+    if not f:
+        return
+    bodies = [f] + ctx._closures_deep(f)
+    inh = [(b, blk, st) for b in bodies for blk, i, st in ctx.find_aggregates(b, r"options::DefaultExpression$", "Inherit")]
+    trt = [(b, blk, st) for b in bodies for blk, i, st in ctx.find_aggregates(b, r"options::DefaultExpression$", "Trait")]
+    ctx.ob(P + ".default-shape", f.key, "one Inherit, one Trait construction", (len(inh), len(trt)) == (1, 1), "%d/%d" % (len(inh), len(trt)))
+    for b, blk, st in inh:
+        ctx.requires(P + ".default-precedence", b, blk, "Inherit", [r"is_some\(self\.default\)=False", r"is_some\(a2\.default\)=True"])
+    for b, blk, st in trt:
+        ctx.requires(P + ".default-precedence", b, blk, "Trait{span}", [r"is_some\(self\.default\)=False", r"is_some\(a2\.default\)=False", r"is_some\(self\.skip\)=True", r"\(self\.skip as Some\)\.0=True"])
+
+
 def run(ctx):
     core = ctx.core("on")
     # ------------------------------------------------------------ with_inherited
@@ -37,13 +57,7 @@ def run(ctx):
         for blk, i, st in asg:
             ctx.requires("C01.G.explicit-name-wins", f, blk, "self.attr_name = Some(rule(ident))", [r"is_some\(self\.attr_name\)=False"])
             ctx.ob("C01.G.name-value", f.key, "value", "Some{ident_case::RenameRule::apply_to_field(" in ctx.expr(f, st["r"]), ctx.expr(f, st["r"])[:160])
-        inh = ctx.find_aggregates(f, r"options::DefaultExpression$", "Inherit")
-        trt = ctx.find_aggregates(f, r"options::DefaultExpression$", "Trait")
-        ctx.ob("C01.G.default-shape", f.key, "one Inherit, one Trait construction", (len(inh), len(trt)) == (1, 1), "%d/%d" % (len(inh), len(trt)))
-        for blk, i, st in inh:
-            ctx.requires("C01.G.default-precedence", f, blk, "Inherit", [r"is_some\(self\.default\)=False", r"is_some\(a2\.default\)=True"])
-        for blk, i, st in trt:
-            ctx.requires("C01.G.default-precedence", f, blk, "Trait{span}", [r"is_some\(self\.default\)=False", r"is_some\(a2\.default\)=False", r"is_some\(self\.skip\)=True", r"\(self\.skip as Some\)\.0=True"])
+        default_synthesis_rules(ctx, "C01.G")
         # the field's own default is kept when present
         # whatever the layout (a tuple match with a pass-through arm, or a guard clause that returns
         # early): no write to self.default that can run while it is Some stores anything else
